@@ -399,3 +399,13 @@ func (a *AMF) buildUEContextReleaseCommand(u *ue) ([]byte, error) {
 	l.List = append(l.List, ie)
 	return encodePDU(p)
 }
+
+type ngapTypeCxtReqItem = ngapType.PDUSessionResourceSetupItemCxtReq
+
+func cxtReqItem(psi int, sst byte, sd []byte, transfer []byte) ngapTypeCxtReqItem {
+	it := ngapType.PDUSessionResourceSetupItemCxtReq{}
+	it.PDUSessionID.Value = int64(psi)
+	it.SNSSAI = ngapSNSSAI(sst, sd)
+	it.PDUSessionResourceSetupRequestTransfer = transfer
+	return it
+}
